@@ -382,6 +382,16 @@ static void janet_stream_close_impl(JanetStream *stream) {
     }
 #else
     if (stream->handle != -1) {
+#ifdef JANET_EV_EPOLL
+        /* close() only drops the epoll registration with the last descriptor of the open file.
+         * A duplicate (ev/to-file, a stream sent to another thread, a child process) would keep
+         * it alive, and epoll would go on reporting a pointer to this stream after it is freed. */
+        if (!(stream->flags & JANET_STREAM_UNREGISTERED)) {
+            struct epoll_event ev;
+            memset(&ev, 0, sizeof(ev));
+            epoll_ctl(janet_vm.epoll, EPOLL_CTL_DEL, stream->handle, &ev);
+        }
+#endif
         if (canclose) close(stream->handle);
         stream->handle = -1;
 #ifdef JANET_EV_POLL
